@@ -211,7 +211,15 @@ func (db *RockDB) HMset(ts int64, key []byte, args ...common.KVRecord) error {
 	var num int64
 	var value []byte
 	tsBuf := PutInt64(ts)
+	// a field given twice is one field (the last value wins)
+	lastIdx := make(map[string]int, len(args))
+	for i := range args {
+		lastIdx[string(args[i].Key)] = i
+	}
 	for i := 0; i < len(args); i++ {
+		if lastIdx[string(args[i].Key)] != i {
+			continue
+		}
 		if err = checkCollKFSize(verKey, args[i].Key); err != nil {
 			return err
 		} else if err = checkValueSize(args[i].Value); err != nil {
@@ -406,6 +414,7 @@ func (db *RockDB) HDel(ts int64, key []byte, args ...[]byte) (int64, error) {
 	if len(args) == 0 {
 		return 0, nil
 	}
+	args = dedupKeepLast(args)
 	keyInfo, err := db.GetCollVersionKey(ts, HashType, key, false)
 	if err != nil {
 		return 0, err
